@@ -39,6 +39,11 @@ def BOUND(tier):
     }[tier]
 
 
+def decoy():
+    from mc.lib import decoy as decoy_mod
+    decoy_mod.classification().close()
+
+
 def selftest():
     cs.selftest()
 
@@ -47,13 +52,15 @@ def mystery_space(n):
     def decode(i):
         return {'kind': 'mystery', 'n': n, 'jump': i % (2 ** n),
                 'rain': i // (2 ** n)}
-    return Space('get_mystery_jump_mask/len=%d' % n, 4 ** n, decode)
+    return Space('get_mystery_jump_mask/len=%d' % n, 4 ** n, decode,
+                 decoy_every=8192)
 
 
 def runs_space(n):
     def decode(i):
         return {'kind': 'runs', 'n': n, 'bits': i}
-    return Space('get_true_interval_masks/len=%d' % n, 2 ** n, decode)
+    return Space('get_true_interval_masks/len=%d' % n, 2 ** n, decode,
+                 decoy_every=8192)
 
 
 def spaces(tier):
